@@ -35,6 +35,17 @@ static inline int vrt_chance(vrt_rng *r, uint32_t num, uint32_t den)
     return vrt_below(r, den) < num;
 }
 uint64_t vrt_mix(uint64_t h, uint64_t v);       /* hash combine */
+/* a comparison result of the given sign (-1/0/+1) whose magnitude is unrelated to the keys and sits on the
+ * edges of the narrower integer types (only the sign of a comparator's result is specified) */
+static inline int vrt_cmp_result(int sgn, unsigned salt)
+{
+    static const int mag[16] = { 1, 2, 127, 128, 255, 256, 512, 0x7fff, 0x8000, 0xffff, 0x10000, 0x30000,
+                                 0x1000000, 0x40000000, 0x7fffff00, 0x7fffffff };
+    const int m = mag[(salt ^ (salt >> 4) ^ (salt >> 9)) & 15];
+    if (sgn == 0) return 0;
+    if (sgn > 0) return m;
+    return m == 0x7fffffff && (salt & 0x10000) ? (-0x7fffffff - 1) : -m;
+}
 
 /* ---------- run parameters (valid in workers) ---------- */
 extern uint64_t vrt_seed;
